@@ -14,8 +14,24 @@ thread_local! {
 
 static HOOK: Once = Once::new();
 
+/// resident-set cap: a runaway exploration ends as a machinery failure (exit 2), never as a verdict
+fn start_watchdog() {
+    let cap_gb: u64 = std::env::var("VERIF_MAX_RSS_GB").ok().and_then(|s| s.parse().ok()).unwrap_or(40);
+    std::thread::spawn(move || loop {
+        std::thread::sleep(std::time::Duration::from_secs(2));
+        if let Ok(statm) = std::fs::read_to_string("/proc/self/statm") {
+            let pages: u64 = statm.split_whitespace().nth(1).and_then(|x| x.parse().ok()).unwrap_or(0);
+            if pages * 4096 > cap_gb << 30 {
+                eprintln!("MACHINERY ERROR: resident set exceeds {cap_gb} GiB; aborting the check");
+                std::process::exit(2);
+            }
+        }
+    });
+}
+
 pub fn install_panic_hook() {
     HOOK.call_once(|| {
+        start_watchdog();
         std::panic::set_hook(Box::new(|info| {
             let msg = if let Some(s) = info.payload().downcast_ref::<&str>() {
                 s.to_string()
